@@ -200,10 +200,11 @@ struct C16 : Scenario {
 				// near misses: text that resembles a self-extractor marker or a method signature without being one
 				// (another version number, a marker cut short, a signature with a wrong frame)
 				static const char *near[] = {"LhASFX V1.3,", "LhASFX V2.0 ", "LhASFX V1.2 ", "LhASFX ", "LHA-SF", "LHA-SFY", "LHA_SFX", "lha-sfx", "LHA-SF\0X",
-				                             "-lh5", "lh5-", "-Lh5-", "-l5-", "-lh55-", "-pn1-", "_lh0-", "-p m-", "-pm", "LhASFX V1.2;"};
+				                             "-lh5", "lh5-", "-Lh5-", "-l5-", "-lh55-", "-pn1-", "_lh0-", "-p m-", "-pm", "LhASFX V1.2;",
+				                             "-LH5-", "-LZS-", "-PM2-", "-Lz5-", "-lH0-", "-pM0-"};
 				int nn = 1 + (int) rng.below(3);
 				for (int k = 0; k < nn; ++k) {
-					std::string s = near[rng.below(19)];
+					std::string s = near[rng.below(25)];
 					if (s.size() < tail) memcpy(&pa[rng.below(tail - s.size())], s.data(), s.size());
 				}
 				p.sets("near_miss", "1");
